@@ -170,5 +170,6 @@ Fixpoint rb_decode_all (l : list (N * list Z)) : list rb_op :=
       end
   end.
 
-Definition run_rcvbuf (l : list (N * list Z)) : list (list Z) :=
+(* every stream has this shape: CASE-line configuration integers, then the operations *)
+Definition run_rcvbuf (cfg : list Z) (l : list (N * list Z)) : list (list Z) :=
   rb_run content empty_buf (rb_decode_all l).
